@@ -85,7 +85,12 @@ def shard(arg):
     kind = arg[0]
     rep = fw.Report()
     i = 0
-    if kind == "enum":
+    if kind == "named":
+        _, n, seed, deadline, part, parts = arg
+        from gen import named
+        it = ((gens, fw.rng_for("c03n", seed, n, label), {"source": "named", "state": label})
+              for j, (label, gid, w, gens, circ) in enumerate(named.named_subjects(n)) if j % parts == part)
+    elif kind == "enum":
         _, n, shard_list, seed, deadline = arg
         it = sweep.enum_subjects(n, shard_list, seed, "c03e")
     else:
@@ -95,7 +100,8 @@ def shard(arg):
         if deadline and time.time() > deadline:
             rep.truncated = True
             break
-        gens = members.apply_signs(gens, rng.randrange(1 << n))
+        if kind != "named":
+            gens = members.apply_signs(gens, rng.randrange(1 << n))
         for name in sweep.configs(n):
             i += 1
             run_subject(rep, n, name, gens, rng, meta, sample=(i % 4000 == 1))
@@ -117,6 +123,10 @@ def run(ctx):
             args.append(("enum", 5, chunk, ctx.seed, dl))
     for chunk in fw.split(members.orbit_reps(6), 64):
         args.append(("member", 6, chunk, 2 if q else 6, ctx.seed, dl))
+    for n in range(2, 7):
+        parts = {2: 1, 3: 1, 4: 2, 5: 6, 6: 16}[n]
+        for part in range(parts):
+            args.append(("named", n, ctx.seed, dl, part, parts))
     args.sort(key=lambda a: -a[1])
     rep = fw.run_shards(ctx, "props.c03", "shard", args)
     rep.extra["exhaustive"] = False
